@@ -678,8 +678,12 @@ def enum_large(tier):
     yield dict(n=151, dof_n=2, problem="elastic")  # 22801 nodes -> 45602 dofs
     yield dict(n=154, dof_n=2, problem="elastic")  # 23716 nodes -> 47432 dofs
     yield dict(n=217, dof_n=1, problem="thermal")  # 47089 dofs
+    # number of element ENTRIES of one slot just above 2**22 (block-wise reductions of the value array): 20 x 20 x 19 HEXA8 in
+    # elasticity = 7600 x 24 x 24 = 4 377 600 entries; above 2**24 in the thorough tier (31**3 elements)
+    yield dict(n=[21, 21, 20], dof_n=3, problem="elastic3d")
     if tier == "thorough":
         yield dict(n=260, dof_n=2, problem="elastic")  # 135200 dofs
+        yield dict(n=[32, 32, 32], dof_n=3, problem="elastic3d")
 
 
 def check_large(case, rec):
@@ -688,13 +692,26 @@ def check_large(case, rec):
     from EasyFEA.FEM._group_elem import GroupElemFactory
 
     n = case["n"]
-    xs = np.linspace(0.0, 1.0, n)
-    X, Y = np.meshgrid(xs, xs, indexing="ij")
-    coord = np.column_stack([X.ravel(), Y.ravel(), np.zeros(n * n)])
-    idx = np.arange(n * n).reshape(n, n)
-    conn = np.column_stack([idx[:-1, :-1].ravel(), idx[1:, :-1].ravel(), idx[1:, 1:].ravel(), idx[:-1, 1:].ravel()])
-    mesh = Mesh({"QUAD4": GroupElemFactory.Create("QUAD4", conn, coord)})
-    if case["problem"] == "elastic":
+    if case["problem"] == "elastic3d":
+        nx, ny, nz = n
+        X, Y, Z = np.meshgrid(np.linspace(0.0, 1.0, nx), np.linspace(0.0, 1.2, ny), np.linspace(0.0, 0.9, nz), indexing="ij")
+        coord = np.column_stack([X.ravel(), Y.ravel(), Z.ravel()])
+        idx = np.arange(nx * ny * nz).reshape(nx, ny, nz)
+        c = lambda i, j, k: idx[i:nx - 1 + i, j:ny - 1 + j, k:nz - 1 + k].ravel()  # noqa: E731
+        conn = np.column_stack([c(0, 0, 0), c(1, 0, 0), c(1, 1, 0), c(0, 1, 0), c(0, 0, 1), c(1, 0, 1), c(1, 1, 1), c(0, 1, 1)])
+        mesh = Mesh({"HEXA8": GroupElemFactory.Create("HEXA8", conn, coord)})
+        simu = Simulations.Elastic(mesh, Models.Elastic.Isotropic(3, E=3.0, v=0.25))
+        n = 0
+    else:
+        xs = np.linspace(0.0, 1.0, n)
+        X, Y = np.meshgrid(xs, xs, indexing="ij")
+        coord = np.column_stack([X.ravel(), Y.ravel(), np.zeros(n * n)])
+        idx = np.arange(n * n).reshape(n, n)
+        conn = np.column_stack([idx[:-1, :-1].ravel(), idx[1:, :-1].ravel(), idx[1:, 1:].ravel(), idx[:-1, 1:].ravel()])
+        mesh = Mesh({"QUAD4": GroupElemFactory.Create("QUAD4", conn, coord)})
+    if case["problem"] == "elastic3d":
+        pass
+    elif case["problem"] == "elastic":
         simu = Simulations.Elastic(mesh, Models.Elastic.Isotropic(2, E=3.0, v=0.25))
     else:
         simu = Simulations.Thermal(mesh, Models.Thermal(k=1.5, c=2.0))
@@ -702,6 +719,7 @@ def check_large(case, rec):
     Ndof = mesh.Nn * dof_n
     sig = dict(problem=case["problem"], Ndof=int(Ndof))
     rec.label(f"large:{case['problem']}:Ndof={Ndof}")
+    rec.label("entries:" + str(int(sum(g.Ne * (g.nPe * dof_n) ** 2 for g in mesh.Get_list_groupElem(mesh.dim)))))
     local = simu.Construct_local_matrix_system(simu.problemType)
     got = simu.Get_K_C_M_F()
     for slot, name in enumerate("KCM"):
@@ -731,3 +749,49 @@ def check_large(case, rec):
 
 
 SUBS.append(Sub("large_system", check_large, enum=enum_large))
+
+
+# ------------------------------------------------------------------------------------------
+# (added by the lead, round 8) the connectivity handed over in a narrow integer type (what a mesh file reader may return): the dof
+# numbers node * dof_n + d leave the range of the type (169 nodes fit uint8, 338 dofs do not); same matrices as with int64
+
+
+def enum_connect_dtypes(tier):
+    for dt in ("uint8", "int16", "uint16", "int32"):
+        for problem in ("elastic", "thermal"):
+            yield dict(dtype=dt, problem=problem, n=13 if dt == "uint8" else 14)
+
+
+def check_connect_dtypes(case, rec):
+    from EasyFEA import Mesh
+    from EasyFEA.FEM._group_elem import GroupElemFactory
+
+    n = case["n"]
+    xs = np.linspace(0.0, 1.0, n)
+    X, Y = np.meshgrid(xs, xs * 0.8, indexing="ij")
+    coord = np.column_stack([X.ravel() + 0.1 * Y.ravel(), Y.ravel(), np.zeros(n * n)])
+    idx = np.arange(n * n).reshape(n, n)
+    conn = np.column_stack([idx[:-1, :-1].ravel(), idx[1:, :-1].ravel(), idx[1:, 1:].ravel(), idx[:-1, 1:].ravel()])
+    sig = dict(dtype=case["dtype"], problem=case["problem"])
+    rec.label("connect:" + case["dtype"], "problem:" + case["problem"])
+    out = []
+    for dt in (case["dtype"], "int64"):
+        mesh = Mesh({"QUAD4": GroupElemFactory.Create("QUAD4", conn.astype(dt), coord.copy())})
+        if case["problem"] == "elastic":
+            simu = Simulations.Elastic(mesh, Models.Elastic.Isotropic(2, E=3.0, v=0.25))
+        else:
+            simu = Simulations.Thermal(mesh, Models.Thermal(k=1.5, c=2.0))
+        simu.rho = 1.5
+        K, C, M, _ = simu.Get_K_C_M_F()
+        out.append([orc.dense(A) for A in (K, C, M)])
+    dof_n = 2 if case["problem"] == "elastic" else 1
+    for name, A, B in zip("KCM", out[0], out[1]):
+        rec.require(A.shape == B.shape == (n * n * dof_n,) * 2, "connect_dtype_shape", f"{name}: shape {A.shape} vs {B.shape}", **sig)
+        rec.close(A - B, float(np.abs(B).max()) + 1e-300, 1e-13, "connect_dtype_same_matrix",
+                  f"{name} assembled from a {case['dtype']} connectivity ({n * n} nodes, {n * n * dof_n} dofs) differs from the one assembled "
+                  "from the same connectivity as int64", slot=name, **sig)
+    rec.nontrivial(True)
+
+
+SUBS.append(Sub("connect_dtypes", check_connect_dtypes, enum=enum_connect_dtypes,
+                doc="integer type of the connectivity array x elastic / thermal on a grid whose dof numbers exceed the range of the narrow types"))
